@@ -11,8 +11,8 @@ def _eval_matches(test, patterns):
         return True
     for pattern in patterns:
         if isinstance(pattern, str):
-            mask  = int("".join("0" if b == "-" else "1" for b in pattern), 2)
-            value = int("".join("0" if b == "-" else  b  for b in pattern), 2)
+            mask  = int("0" + "".join("0" if b == "-" else "1" for b in pattern), 2)
+            value = int("0" + "".join("0" if b == "-" else  b  for b in pattern), 2)
             if value == (mask & test):
                 return True
         else:
